@@ -29,11 +29,23 @@ def main():
     # the implementation under test is /repo's working tree
     sys.path.insert(0, core.REPO)
     mod = importlib.import_module("harness.props." + args.pid)
+    rec = None
+    if args.replay:
+        # a replay file records the violating item with the tier and seed of the run that found it; runs are a
+        # deterministic function of (tree, tier, seed): the replay shows the recorded item and re-runs that configuration,
+        # which reports the same violation again as long as the tree still has it
+        rec = json.load(open(args.replay))
+        args.tier = rec.get("tier", args.tier)
+        args.seed = int(rec.get("seed", args.seed))
+        print("REPLAY property=%s kind=%s tier=%s seed=%d" % (args.pid, rec.get("kind"), args.tier, args.seed))
+        print("  recorded: %s" % json.dumps(rec.get("detail"), default=str)[:6000])
+        os.environ.setdefault("VERIF_OUT", os.path.join(os.environ.get("TMPDIR", "/tmp"), "verif_replay_out"))
+        importlib.reload(core)
     ctx = core.Ctx(args.pid, args.tier, args.seed)
     rc = 0
     try:
-        if args.replay:
-            rule = mod.replay(ctx, json.load(open(args.replay)))
+        if args.replay and hasattr(mod, "replay"):
+            rule = mod.replay(ctx, rec)
         else:
             rule = mod.run(ctx)
         level = getattr(mod, "LEVEL", "model_checking")
